@@ -86,7 +86,7 @@ func pluginRuns(c *Ctx, runs, stride int, scope func(class, sha, name, hermetic 
 	c.R.AddCount("states", res.Distinct)
 	c.R.AddCount("transitions", res.Generated)
 	evs := filepath.Join(dir, "events.ndjson")
-	if o, err := run(c.S.Repo, goEnv(), 60*time.Minute, c.S.Gen, "plugin", "--plugin", c.S.Plugin, "--in", exp, "--out", evs, "--runs", fmt.Sprint(runs), "--stride", fmt.Sprint(stride)); err != nil {
+	if o, err := run(c.S.Repo, goEnv(), 60*time.Minute, c.S.Gen, "plugin", "--plugin", c.S.Plugin, "--in", exp, "--out", evs, "--runs", fmt.Sprint(runs), "--stride", fmt.Sprint(stride), "--seed", fmt.Sprint(c.Seed)); err != nil {
 		c.R.InternalErr("gen plugin: %v %s", err, trunc(o, 1500))
 		return
 	}
